@@ -12,6 +12,7 @@ import (
 	"strconv"
 	"strings"
 	"sync"
+	"syscall"
 	"time"
 
 	"verif/mc/fw"
@@ -26,7 +27,7 @@ func init() {
 		ID:    "C18",
 		Level: "fault_enumeration",
 		Rule: "configurations = inputs {formatted, unformatted, unparsable, empty, 150 KB unformatted} x modes {-w on an .evy file, -w on a .txtar with evy members, -w on two files of which the " +
-			"second is unparsable, -c on a file, -c on stdin, no flag} x permission bits {0644, 0755, 0600, 0444 (quick: 0644, 0755)}. For each configuration: a baseline run under strace -f -y " +
+			"second is unparsable, -c on a file, -c on stdin, no flag} x permission bits {0644, 0755, 0666, 0600, 0444, 0777, 0664 (quick: 0644, 0755, 0666)} under umask 022. For each configuration: a baseline run under strace -f -y " +
 			"collects the ordered list L of file-system syscalls that touch the scratch directory (by path or by descriptor); then for EVERY element of L and every errno in {ENOSPC, EIO, " +
 			"EACCES} one run with that call failing, and for EVERY element of L one run killed (SIGKILL) on entry to that call. Coverage is verified from the strace log ((INJECTED) / killed " +
 			"marker on the intended call); an element that cannot be hit after retries is listed as a gap and makes the run exhaustive:false. Oracle after every run: target bytes = original " +
@@ -65,8 +66,8 @@ type c18Case struct {
 	// Fault: "" (baseline), "error:<errno>" or "kill"
 	Fault   string `json:"fault"`
 	Syscall string `json:"syscall"`
-	Index   int    `json:"index"` // index into the baseline list L
-	Desc    string `json:"desc"`  // the baseline call, for the reader
+	Index   int    `json:"index"`             // index into the baseline list L
+	Desc    string `json:"desc"`              // the baseline call, for the reader
 	Ordinal int    `json:"ordinal,omitempty"` // n-th call of Syscall by its thread in the baseline (0: take a fresh baseline)
 }
 
@@ -434,9 +435,11 @@ func c18Formatted(name, orig string) (string, bool) {
 }
 
 func runC18(w *fw.Worker) {
-	perms := []uint32{0o644, 0o755}
+	// the child inherits umask 022, so a mode with group/other write bits (0666) is only kept if it is set explicitly
+	syscall.Umask(0o022)
+	perms := []uint32{0o644, 0o755, 0o666}
 	if !w.Quick() {
-		perms = []uint32{0o644, 0o755, 0o600, 0o444}
+		perms = []uint32{0o644, 0o755, 0o666, 0o600, 0o444, 0o777, 0o664}
 	}
 	var cfgs []c18Config
 	for _, in := range []string{"unformatted", "formatted", "unparsable", "empty", "large"} {
